@@ -951,10 +951,13 @@ def model_cfg(draw, memtype=None, ncols=None, init=None, core=False, base=None, 
 def timing_set(draw, P):
     """a timing set in DRAM clocks; small values on purpose (commands as close together as a device could allow)"""
     nph, BLc = P["nph"], P["BLc"]
-    tRCD = draw(st.integers(1, 2 * nph + 1))
-    tRP = draw(st.integers(1, 2 * nph + 1))
+    # Domain: tRCD, tRP, tRRD >= nphases DRAM clocks, so that two row commands / a row command and a column command of one bank never
+    # share a controller cycle.  The bundled model applies the commands of one controller cycle simultaneously (documented DFI-cycle
+    # granularity); every device of the library has tRCD, tRP >= 12 ns and tRRD >= 4 clocks, litedram's controller never issues such pairs.
+    tRCD = draw(st.integers(nph, 2 * nph + 1))
+    tRP = draw(st.integers(nph, 2 * nph + 1))
     tRAS = draw(st.integers(tRCD, tRCD + 2 * nph + 2))
-    tRRD = draw(st.integers(1, nph + 2))
+    tRRD = draw(st.integers(nph, nph + 2))
     return dict(tRCD=tRCD, tRP=tRP, tRAS=tRAS, tRC=tRAS + tRP, tRRD=tRRD, tFAW=draw(st.sampled_from([None, 4 * tRRD, 4 * tRRD + 3])),
                 tWR=draw(st.integers(1, 6)), tWTR=draw(st.integers(1, 6)), tCCD=draw(st.integers(BLc, BLc + 2)), tRFC=draw(st.integers(2, 30)),
                 tRTP=draw(st.integers(1, 5)), tRTW=max(1, P["CL"] + BLc + 2 - P["WL"]))
